@@ -469,3 +469,84 @@ def wear(be, ticks=None, n: int = 640) -> None:
                 be.timestamp_at_tick(t)
         except Exception:  # noqa - what these answer is judged elsewhere
             pass
+
+
+class _Abort(TimeoutError):
+    """raised by the timer signal inside whatever is running (a timeout / Ctrl-C of the application)"""
+
+
+def interrupted(fn, rng, attempts: int = 6, rec=None) -> int:
+    """Runs fn() `attempts` times, each time ABORTED at a random moment by an asynchronous exception (an interval-timer signal
+    whose handler raises, as an application's timeout or a Ctrl-C does), and swallows the abort. Returns how many runs were really
+    cut short. What fn was doing is lost; what it was doing it TO (a parsed chart, a tempo map) is then judged by the caller: an
+    aborted read-only use is still a read-only use. Main thread only (signals are delivered there); a no-op elsewhere."""
+    import signal
+    import time
+
+    if threading.current_thread() is not threading.main_thread() or not hasattr(signal, "setitimer"):
+        return 0
+    # no trial run first: the FIRST use is among the ones cut short (a trial run would complete whatever the first use sets up).
+    # Delays start at some 15 us and double until a run completes; after that they are drawn from within that run's duration.
+    dur = None
+    step = 15e-6
+
+    def handler(signum, frame):
+        raise _Abort("aborted by a timer signal")
+
+    try:
+        old = signal.signal(signal.SIGALRM, handler)
+    except (ValueError, OSError):
+        return 0
+    n = 0
+    try:
+        for _ in range(attempts + 14):
+            if n >= attempts:
+                break
+            delay = rng.uniform(dur * 0.02, dur * 0.98) if dur is not None else step * rng.uniform(0.6, 1.4)
+            try:
+                t0 = time.perf_counter()
+                signal.setitimer(signal.ITIMER_REAL, max(delay, 1e-6))
+                try:
+                    fn()
+                finally:
+                    signal.setitimer(signal.ITIMER_REAL, 0)
+                if dur is None:
+                    dur = max(time.perf_counter() - t0, 2e-5)  # completed before the timer fired
+            except _Abort:
+                n += 1
+                if dur is None:
+                    step *= 2
+            except Exception:  # noqa - failing uses are judged elsewhere
+                if dur is None:
+                    dur = max(time.perf_counter() - t0, 2e-5)
+    finally:
+        try:
+            signal.setitimer(signal.ITIMER_REAL, 0)
+        except _Abort:
+            pass
+        signal.signal(signal.SIGALRM, old)
+    if rec is not None and n:
+        rec.mon("read_only_uses_aborted_by_an_asynchronous_exception", n)
+    return n
+
+
+def enumerate_attributes(chart) -> int:
+    """what a debugger's variable pane, a serialiser or a documentation tool does to an object: every attribute of the chart, of its
+    parts and of a few events is evaluated (inspect.getmembers = dir() + getattr). Looking is not touching. Returns the number of objects
+    looked at; an attribute that raises is the looker's problem, not a state change."""
+    import inspect
+
+    objs = [chart, chart.metadata, chart.sync_track, chart.sync_track.bpm_events, chart.global_events_track]
+    for m in chart.instrument_tracks.values():
+        for tr in m.values():
+            objs.append(tr)
+            objs += list(tr.note_events)[:2] + list(tr.star_power_events)[:1] + list(tr.track_events)[:1]
+    g = chart.global_events_track
+    objs += list(g.text_events)[:1] + list(g.section_events)[:1] + list(g.lyric_events)[:1] + list(chart.sync_track.bpm_events)[:1] + \
+        list(chart.sync_track.time_signature_events)[:1]
+    for o in objs:
+        try:
+            inspect.getmembers(o)
+        except Exception:  # noqa
+            pass
+    return len(objs)
